@@ -138,7 +138,9 @@ def main():
         # statement-level shape facts of the transcribed algorithms that no longer hold in the source
         groups = [pid] + (["C15"] if pid == "C09" else [])
         for grp in groups:
-            for name, okf in tinfo.get("flow_shapes", {}).get(grp, {}).items():
+            facts = dict(tinfo.get("flow_shapes", {}).get(grp, {}))
+            facts.update(tinfo.get("grid_shapes", {}).get(grp, {}))
+            for name, okf in facts.items():
                 if not okf:
                     proof_broken.append("translator: the source no longer contains the statement the model transcribes: %s.%s (theorem Fs.Shapes.source_shape_%s)" % (grp, name, grp))
     targets = ["fsmodel"] + list(P.get("lean_modules", []))
